@@ -72,6 +72,22 @@ def make_inputs(ctx, n):
     cfgs = sorted(glob.glob(os.path.join(REPO, 'test', 'cfg', '*.c')) + glob.glob(os.path.join(REPO, 'test', 'cfg', '*.cpp')))
     rng.shuffle(samples)
     rng.shuffle(cfgs)
+    # severity-ladder corpus (checks whose report depends on several switches) on a shipped platform and on platform
+    # files with unusual type sizes
+    cdir = os.path.join(os.path.dirname(KNOWN_DIR.rstrip('/')).replace('/known', '/corpus'), 'c27')
+    plats = {os.path.basename(x): open(x).read() for x in sorted(glob.glob(os.path.join(cdir, '*.xml')))}
+    for p in sorted(glob.glob(os.path.join(cdir, '*.c')) + glob.glob(os.path.join(cdir, '*.cpp'))):
+        rel = os.path.basename(p)
+        text = open(p).read()
+        for pl in [None] + sorted(plats):
+            files = {rel: text}
+            args = ['--library=std']
+            if pl:
+                files[pl] = plats[pl]
+                args.append('--platform=' + pl)
+            out.append({'name': 'corpus/%s@%s' % (rel, pl or 'native'), 'files': files, 'sources': [rel], 'args': args,
+                        'extra': []})
+    n = max(n, len(out) + 10)
     ns = max(1, n // 5)
     nc = max(1, n // 5)
     for p in samples[:ns]:
@@ -92,8 +108,14 @@ def make_inputs(ctx, n):
         i += 1
         proj = projgen.gen(r, nfiles=(1, 3), headers=r.random() < 0.5, ctu=r.random() < 0.3, nsnip=(3, 8))
         extra = r.choice([[], [], [], ['unusedFunction'], ['missingInclude']])
-        out.append({'name': 'projgen/' + proj.digest(), 'files': proj.files, 'sources': proj.sources, 'args': [],
-                    'extra': extra})
+        files, args = dict(proj.files), []
+        pl = r.choice([None, None, 'unix32', 'win64', 'avr8'] + sorted(plats))
+        if pl:
+            args.append('--platform=' + pl.replace('.xml', '') if pl not in plats else '--platform=' + pl)
+            if pl in plats:
+                files[pl] = plats[pl]
+        out.append({'name': 'projgen/' + proj.digest() + ('@' + pl if pl else ''), 'files': files, 'sources': proj.sources,
+                    'args': args, 'extra': extra})
     return out
 
 
